@@ -161,7 +161,9 @@ class SliceInnerContract(Contract):
     must_raise = property(lambda self: [("selects-nothing", lambda eng, st0, a: z3.Not(self.spec(st0, a)["ok"]))])
     # and ValueError may only escape when the index really selects nothing
     reasons = property(lambda self: {
-        ValueError: lambda eng, st0, a: z3.Not(self.spec(st0, a)["ok"]),
+        # (a parent that is itself an invalid slice makes its own width unobtainable: ValueError from the helper)
+        ValueError: lambda eng, st0, a: z3.Not(self.spec(st0, a)["ok"]) if all(
+            issubclass(k, Signal) for k in self.parent_classes) else True,
         # the parent's own width may be unobtainable (unresolvable reference, invalid parent slice): never for a Signal
         RuntimeError: lambda eng, st0, a: not all(issubclass(k, Signal) for k in self.parent_classes)})
 
